@@ -42,10 +42,30 @@ ASSUMPTIONS = [
 
 def run(ctx):
   ds_norm_identity(ctx)
+  graft_accumulator_precision(ctx)
   tearfree_maybe_graft(ctx)
   tearfree_dispatch(ctx)
   tearfree_norm_optimisers(ctx)
   tearfree_mask(ctx)
+
+
+def graft_accumulator_precision(ctx):
+  """R4: the grafting optimizer's second-moment accumulator (diagonal statistics) is stored unquantised (float32) in every
+  mode: the grafting step must be the AdaGrad / RMSProp step itself, and a bfloat16 running sum stalls (adding g^2 to a sum
+  2^8 times larger is lost), so the transplanted norm drifts away from the grafting optimizer's."""
+  m = ctx.model
+  fq = m.func(MOD, F + '._quantize_diagonal_statistics')
+  ctx.analysed(fq)
+  ev = evaluator(m, opaque={'from_float_value'})
+  ev.run(fq)
+  calls = [c for c in ev.calls if c.callee.endswith('.from_float_value')]
+  ctx.need('C05.R4', len(calls), 1, 'from_float_value call in _quantize_diagonal_statistics')
+  for c in calls:
+    dt = c.args.get('quantized_dtype', NONE)
+    ok = dt.op == 'ext' and dt.args[0] == 'jax.numpy.float32' and c.args.get('fvalue') is sym('param', fq.short, 'diagonal_statistics')
+    ctx.ob('C05.R4', fq.short, 'graft accumulator stored as float32', ok,
+           f'the grafting second-moment accumulator must be kept in float32 whatever the memory mode; it is stored as `{show(dt, maxdepth=3)}`', ctx.loc(fq),
+           sample='from_float_value(diagonal_statistics, jnp.float32)')
 
 
 def _norm_atoms(e):
